@@ -623,6 +623,47 @@ def ob_native_switch(seed):
     return Verdict(DISCHARGED, backend="native simulation vs fresh simulation", sub=n)
 
 
+def ob_native_switch_parabolic(seed):
+    """X: the same for the parabolic (theta) scheme: one heat-conduction simulation through changes of dt and alpha between steps vs a fresh simulation from the same (u, v)."""
+    import numpy as np
+    import contextlib, io
+    from EasyFEA import Models, Simulations
+    from contracts import patches
+    pre, connect = patches.star_patch("TRI3")
+    mesh = patches.real_mesh("TRI3", [[float(v) for v in p_] for p_ in pre], connect)
+    co = np.asarray(mesh.coord)
+    fixed = np.where(np.isclose(co[:, 0], co[:, 0].min()))[0]
+    loaded = np.where(np.isclose(co[:, 0], co[:, 0].max()))[0]
+
+    def mk():
+        sm = Simulations.Thermal(mesh, Models.Thermal(k=1.5, c=0.7, thickness=1.2))
+        sm.rho = 2.0
+        sm.add_dirichlet(fixed, [1.0], ["t"])
+        sm.add_neumann(loaded, [0.3], ["t"])
+        return sm
+    settings = [dict(dt=5e-2), dict(dt=5e-2), dict(dt=1e-2), dict(dt=1e-2, alpha=1.0), dict(dt=3e-2, alpha=0.5), dict(dt=3e-2, alpha=0.75), dict(dt=2e-3)]
+    one = mk()
+    pt = one.problemType
+    n = 0
+    with contextlib.redirect_stdout(io.StringIO()):
+        for k, st in enumerate(settings):
+            u0, v0 = one._Get_u_n(pt).copy(), one._Get_v_n(pt).copy()
+            one.Solver_Set_Parabolic_Algorithm(**st)
+            one.Solve()
+            fresh = mk()
+            fresh.Solver_Set_Parabolic_Algorithm(**st)
+            fresh._Set_solutions(pt, u0, v0)
+            fresh.Solve()
+            for nm, a_, b_ in (("u", one._Get_u_n(pt), fresh._Get_u_n(pt)), ("v", one._Get_v_n(pt), fresh._Get_v_n(pt))):
+                e = float(np.abs(a_ - b_).max() / (np.abs(b_).max() + 1e-30))
+                n += 1
+                if e > 1e-9:
+                    raise Refuted(f"parabolic step {k} with settings {st}: the simulation that went through the earlier settings gives another {nm} than a fresh simulation started from the same "
+                                  f"state (relative difference {e:.3e})", cex=dict(step=k, settings={kk: str(vv) for kk, vv in st.items()}), signature="native:switch:parabolic",
+                                  replay=dict(confirmed=True, err=e))
+    return Verdict(DISCHARGED, backend="native simulation vs fresh simulation", sub=n)
+
+
 def build(tier: str, seed: int):
     F = tuple(f"{PATH}::{q}" for q in FN.values())
     obs = []
@@ -647,6 +688,8 @@ def build(tier: str, seed: int):
                   clause="dt <= 0 rejected"))
     obs.append(Ob("C05.native.switch", ob_native_switch, (seed,), "X", (f"{PATH}::{FN['coefs']}", f"{PATH}::{FN['set_hyp']}"), bound="8 consecutive steps with changing dt / parameters / algorithm on one 4-element patch",
                   clause="a step after a change of time-scheme settings == the step of a fresh simulation from the same state", timeout=600))
+    obs.append(Ob("C05.native.switch.parabolic", ob_native_switch_parabolic, (seed,), "X", (f"{PATH}::{FN['coefs']}", f"{PATH}::{FN['set_par']}"), bound="7 consecutive steps with changing dt / alpha on one 4-element patch",
+                  clause="a parabolic step after a change of dt / alpha == the step of a fresh simulation from the same state", timeout=600))
     # canaries (engine soundness): wrong specs must be refuted
     obs.append(Ob("canary.newmark.update.swapped", ob_update, ("newmark", True), "P", expect=REFUTED))
     obs.append(Ob("canary.hht.eom.extra_term", ob_eom, ("hht", True), "P", expect=REFUTED))
